@@ -66,6 +66,9 @@ def gen_cases(tier, seed):
     from . import streams as S
     cov = [(e["t"], e["ts"][:16]) for e in S.cov_entries() if "#" not in e["t"]]
     exprs += cov if tier == "thorough" else r.sample(cov, min(len(cov), 150))
+    # a word broken after a hyphen: whatever separator follows the hyphen, the two halves stay two tokens
+    exprs += [(t, "2021-03-10T12:43") for t in ("termin über- morgen 15 uhr", "to- morrow 5pm", "after- noon 3 o'clock", "mon- fri 9-5", "heute nach- mittag",
+                                                 "vor- gestern", "wochen- ende am freitag 8 uhr", "über- übermorgen um 9")]
     # clock notations with letters (am/pm, uhr, h, o'clock), named hours, months, weekdays: the places where case could matter
     for cn, (fn, fl) in G.CLOCK.items():
         for h in (0, 1, 9, 11, 12, 13, 23):
@@ -142,6 +145,15 @@ def run_case(case, ctx):
                     continue
                 bad.append("U+%04X (%s): %r, expected %r" % (cp, cat, got, exp))
                 continue
+            # the same code point in other surroundings: after a hyphen that ends a word ('über-<c>morgen': a line
+            # break there is a separator like any other), between digits, between capitals
+            kind = "sep" if exp == "a b" else "dash" if exp == "a-b" else "other"
+            for pre, post in (("x-", "y"), ("1", "2"), ("A", "B"), ("ü-", "m")):
+                want = pre + {"sep": " ", "dash": "-", "other": c}[kind] + post if not (kind == "dash" and pre.endswith("-")) else pre + post
+                g2 = norm(pre + c + post)
+                if g2 != want:
+                    bad.append("U+%04X (%s) between %r and %r: %r, expected %r" % (cp, cat, pre, post, g2, want))
+                    break
             # idempotence and position
             if norm(got) != got:
                 bad.append("U+%04X: not idempotent" % cp)
